@@ -139,7 +139,8 @@ def observe(case: dict) -> dict:
     from openpectus.lang.model.parser import ParserMethod, create_method_parser
     from openpectus.lsp import lsp_analysis
     from pylsp.workspace import Document, Workspace
-    obs: dict = {"ops": [], "analysis": "", "lint": "", "exc": None, "site": None, "error_lines": set(), "nodes": []}
+    obs: dict = {"ops": [], "analysis": "", "lint": "", "exc": None, "site": None, "error_lines": set(), "nodes": [],
+                 "lint_error_lines": None}
     uod, tags, commands = build_env(case)
     ops = [f"tag\t{enc(n)}\t{oenc(u)}" for n, u in case["tags"]]
     try:
@@ -220,6 +221,8 @@ def observe(case: dict) -> dict:
                     out.append(f"{MESSAGE_TO_ID[d['code']]}:{d['range']['start']['line']}:"
                                f"{'E' if sev_err else '-'}:{'fix' if fix else '-'}")
             obs["lint"] = " ".join(out) or "none"
+            # what the editor shows: the lines that carry an error diagnostic (every analyzer, not only the modelled ones)
+            obs["lint_error_lines"] = {d["range"]["start"]["line"] for d in diags if d.get("severity") == 1}
     except Exception as e:  # noqa: BLE001
         obs["lint"] = "err:lint-raised:" + type(e).__name__
     return obs
@@ -332,15 +335,24 @@ def command_line(rng, cmds) -> tuple[str, str | None]:
 def gen_method(rng, tags, cmds, n_lines: int) -> tuple[str, list[dict]]:
     lines: list[str] = []
     expect: list[dict] = []
+    offending: list[tuple[str, str]] = []   # top-level offending lines seen so far: repeated later on other lines
 
     def add(text, exp, indent=0):
         if exp:
             expect.append({"line": len(lines), "what": exp})
+            if indent == 0 and (text, exp) not in offending:
+                offending.append((text, exp))
         lines.append(" " * indent + text)
     defined_macros: list[str] = []
     while len(lines) < n_lines:
         r = rng.random()
         th = f"{rng.choice(['0', '1', '2.5', '10'])} " if rng.random() < 0.15 else ""
+        if offending and rng.random() < 0.2:
+            t, e = rng.choice(offending)
+            add(t, e)
+            if t.startswith(("Watch", "Alarm")) or " Watch" in t[:12] or " Alarm" in t[:12]:
+                add("Mark: again", None, 4)
+            continue
         if r < 0.3:
             kw = rng.choice(["Watch", "Alarm"])
             t, e = cond_line(rng, kw, tags)
@@ -419,6 +431,45 @@ def exhaustive_cases() -> list[dict]:
     return out
 
 
+def repeated_cases() -> list[dict]:
+    """The same offending reference on several lines (same undefined tag / command, typos with the same suggestion,
+    incomplete conditions of the same kind): every occurrence must carry its own error."""
+    tags = [["Flow", "L/h"], ["Run Time", "s"], ["pH", None]]
+    cmds = [list(c) for c in CMD_POOL[:6]]
+    blocks = {
+        "undefined-tag": ["Watch: Xyzzy > 3", "Alarm: Xyzzy > 3", "Simulate: Xyzzy = 3", "Simulate off: Xyzzy",
+                          "Watch: Flwo > 3 L/h", "Simulate: Flwo = 3 L/h", "Simulate off: Flwo", "Watch: Q > 1"],
+        "undefined-command": ["Frobnicate", "Frobnicate: 5", "Wiat: 5 s", "ab"],
+        "incomplete-condition": ["Watch: Flow", "Alarm: Flow >", "Watch", "Watch: > 3", "Alarm:"],
+    }
+    out = []
+    for what, texts in blocks.items():
+        for t in texts:
+            for k in (2, 3):
+                for sep in ([], ["Mark: between"], ["", "# c"]):
+                    lines, expect = [], []
+                    for i in range(k):
+                        expect.append({"line": len(lines), "what": what})
+                        lines.append(t)
+                        if t.startswith(("Watch", "Alarm")):
+                            lines.append("    Mark: body")
+                        if i < k - 1:
+                            lines += sep
+                    out.append({"text": "\n".join(lines), "tags": tags, "cmds": cmds, "expect": expect,
+                                "kind": "repeated:" + what})
+    # different lines, same finding text (two typos with the same suggestion, same error kind on two tags)
+    for a, b, what in (("Watch: Flwo > 3 L/h", "Alarm: Flo > 1 L/h", "undefined-tag"),
+                       ("Wiat: 5 s", "Wat: 1 s", "undefined-command"),
+                       ("Watch: Flow", "Watch: pH", "incomplete-condition"),
+                       ("Alarm: Flow >", "Alarm: pH >", "incomplete-condition")):
+        text = "\n".join([a] + (["    Mark: x"] if a.startswith(("Watch", "Alarm")) else []) +
+                         [b] + (["    Mark: y"] if b.startswith(("Watch", "Alarm")) else []))
+        second = 2 if a.startswith(("Watch", "Alarm")) else 1
+        out.append({"text": text, "tags": tags, "cmds": cmds,
+                    "expect": [{"line": 0, "what": what}, {"line": second, "what": what}], "kind": "repeated:" + what})
+    return out
+
+
 ALPHABET = list("abcWatchlrmSiue o:  #<>=!.%/_-+0123456789") + ["é", "°", "\t", "µ", " ", "Ω"]
 
 
@@ -473,11 +524,26 @@ def judge(case: dict, obs: dict) -> list[Failure]:
         fails.append(Failure("lint-replaces-diagnostics", pub,
                              f"lint returned {obs['lint']} although the analysis itself did not raise"))
     kinds = {n["line"]: n["kind"] for n in obs["nodes"]}
+    src = case["text"].splitlines()
+    shown = obs["lint_error_lines"]
     for exp in case["expect"]:
         if exp["line"] not in obs["error_lines"]:
             fails.append(Failure(f"not-flagged:{exp['what']}:{kinds.get(exp['line'], '?')}", pub,
-                                 f"line {exp['line']} ({case['text'].splitlines()[exp['line']]!r}) has an "
+                                 f"line {exp['line']} ({src[exp['line']]!r}) has an "
                                  f"{exp['what'].replace('-', ' ')} but no error item is reported on it"))
+        elif shown is not None and exp["line"] not in shown:
+            # the property is about what the editor shows: an error diagnostic ON the offending line
+            fails.append(Failure(f"no-diagnostic-on-line:{exp['what']}:{kinds.get(exp['line'], '?')}", pub,
+                                 f"line {exp['line']} ({src[exp['line']]!r}) has an {exp['what'].replace('-', ' ')}; the "
+                                 f"analyzer reports it, but lint shows no error diagnostic on that line "
+                                 f"(error diagnostics on lines {sorted(shown)})"))
+    if shown is not None:
+        # "…so the editor keeps showing all other diagnostics": every line with an analyzer error has a diagnostic
+        lost = sorted(obs["error_lines"] - shown)
+        if lost and not any(f.key.startswith("no-diagnostic-on-line") for f in fails):
+            fails.append(Failure("lint-drops-error-items", pub,
+                                 f"the analyzers report errors on lines {sorted(obs['error_lines'])}, lint shows error "
+                                 f"diagnostics only on lines {sorted(shown)} (lost: {lost})"))
     return fails
 
 
@@ -491,9 +557,11 @@ def run(ctx: Check) -> int:
                 "(empty, with close names, without close names), all Simulate-off and command forms; (2) structured "
                 "random methods of 1–8/14 lines (Watch/Alarm with bodies, Simulate, Simulate off, commands with "
                 "valid/invalid/no arguments, thresholds, blocks, non-recursive macros) against random tag/command sets; "
-                "(3) malformed text (mutated lines, random unicode lines, odd indentation). Non-trivial = the analyzers "
+                "(3) the same offending reference repeated on 2–3 lines (and, inside the random methods, earlier offending lines "
+                "re-used with probability 0.2); (4) malformed text (mutated lines, random unicode lines, odd indentation). "
+                "The oracle looks at the lint output per offending line. Non-trivial = the analyzers "
                 "produce at least one item or raise.")
-    cases = [dict(c["case"], kind="corpus") for c in load_corpus("C19")] + exhaustive_cases() \
+    cases = [dict(c["case"], kind="corpus") for c in load_corpus("C19")] + exhaustive_cases() + repeated_cases() \
         + random_cases(ctx) + malformed_cases(ctx)
     cache: dict[int, dict] = {}
 
